@@ -59,7 +59,9 @@ func decorations() []deco {
 	}
 	// keywords that only later drafts know are unknown keywords in a draft-07 document
 	for _, kv := range [][2]string{{"prefixItems", `[{"type":"string"}]`}, {"prefixItems", `[false]`}, {"minContains", `0`}, {"minContains", `5`}, {"maxContains", `0`}, {"unevaluatedItems", `false`},
-		{"unevaluatedProperties", `false`}, {"dependentRequired", `{"a":["zz"]}`}, {"dependentSchemas", `{"a":false}`}} {
+		{"unevaluatedProperties", `false`}, {"dependentRequired", `{"a":["zz"]}`}, {"dependentSchemas", `{"a":false}`},
+		// ... and declare nothing there: a name that a fragment-only $id of the document also uses stays that $id's
+		{"$anchor", `"k"`}, {"$dynamicAnchor", `"k"`}, {"$anchor", `"d"`}, {"$dynamicRef", `"#k"`}, {"$dynamicRef", `"#/nope"`}} {
 		d = append(d, deco{k: kv[0], v: kv[1], only07: true})
 	}
 	for _, k := range []string{"x", "Extra"} {
@@ -293,6 +295,13 @@ func bases(thorough bool) []base {
 		`{"allOf":[{"properties":{"a":true}}],"unevaluatedProperties":false,"$defs":{"k":{"$anchor":"k","type":"integer"}},"properties":{"b":{"$ref":"#k"}}}`,
 	} {
 		out = append(out, base{t, ref.D2020, nil})
+	}
+	// draft-07 documents whose references go through fragment-only $id anchors
+	for _, t := range []string{
+		`{"definitions":{"a":{"type":"string"},"k":{"$id":"#k","type":"integer"},"z":{"type":"array"}},"properties":{"p":{"$ref":"#k"}},"items":{"$ref":"#k"}}`,
+		`{"properties":{"a":{"type":"string"},"p":{"$ref":"#k"}},"definitions":{"e":{"$id":"http://h/e.json","definitions":{"k":{"$id":"#k","type":"integer"}},"items":{"$ref":"#k"}},"k":{"$id":"#k","type":"boolean"}},"additionalProperties":{"$ref":"http://h/e.json"}}`,
+	} {
+		out = append(out, base{`{"$schema":"http://json-schema.org/draft-07/schema#",` + t[1:], ref.D07, []string{`{"p":1}`, `{"p":"s"}`, `[1,"s"]`, `{"p":true,"q":[1]}`, `{"q":["s"]}`}})
 	}
 	out = append(out, base{`{"$id":"http://h/root.json","$ref":"mid.json#/$defs/alias","$defs":{"mid":{"$id":"mid.json","$defs":{"alias":{"$ref":"list.json"},"elem":{"$dynamicAnchor":"T","type":"integer"}}},"list":{"$id":"list.json","items":{"$dynamicRef":"#T"},"$defs":{"any":{"$dynamicAnchor":"T","type":"string"}}}}}`, ref.D2020, []string{`["x"]`, `[1,2]`}},
 		base{`{"$id":"http://h/root.json","$ref":"item.json#/$defs/value","$defs":{"item":{"$id":"item.json","$defs":{"value":{"type":"integer"}}}}}`, ref.D2020, nil},
